@@ -834,3 +834,34 @@ V("c11-rsa-import-n-via-table", "C11", "break", "R11.17", "RSA public import dec
   "rfc7518/rsa_key.py", "        numbers = RSAPublicNumbers(base64_to_int(obj[\"e\"]), base64_to_int(obj[\"n\"]))\n        return numbers.public_key", "        numbers = RSAPublicNumbers(base64_to_int(obj[\"e\"]), int.from_bytes(urlsafe_b64decode(to_bytes(obj[\"n\"])), \"little\"))\n        return numbers.public_key")
 V("c11-okp-public-map-misspelt", "C11", "break", "R11.18", "PUBLIC_KEYS_MAP names Ed448 wrongly: a conformant public Ed448 JWK cannot be imported",
   "rfc8037/okp_key.py", "    \"Ed448\": Ed448PublicKey,", "    \"Ed448x\": Ed448PublicKey,")
+# ------------------------------------------------------------------------------------------------ realistic behaviour-preserving edits (run against all 20 checks in cross mode)
+V2("real-benign-logging", "C16", "benign", "E1", "debug logging added to a consuming entry point", [
+   ("jws.py", "from __future__ import annotations\n", "from __future__ import annotations\nimport logging\n"),
+   ("jws.py", "    obj = extract_compact(to_bytes(value))", "    logging.getLogger(__name__).debug(\"deserialize_compact called\")\n    obj = extract_compact(to_bytes(value))")])
+V2("real-benign-rename-helper", "C04", "benign", "R04.9", "a private helper is renamed consistently", [
+   ("jwe.py", "def _attach_recipient_keys(", "def _bind_recipient_keys("),
+   ("jwe.py", "        _attach_recipient_keys(general_obj.recipients, private_key, sender_key)", "        _bind_recipient_keys(general_obj.recipients, private_key, sender_key)"),
+   ("jwe.py", "        _attach_recipient_keys(flattened_obj.recipients, private_key, sender_key)", "        _bind_recipient_keys(flattened_obj.recipients, private_key, sender_key)")])
+V("real-benign-new-unused-helper", "C19", "benign", "R19.1", "a new public helper is added to util.py",
+  "util.py", "def json_b64encode(", "def is_base64url(s: str) -> bool:\n    return all(c.isalnum() or c in \"-_\" for c in s)\n\n\ndef json_b64encode(")
+V("real-benign-new-header-parameter", "C15", "benign", "R15.3", "a further registered header parameter (RFC 7800 cnf-style extension name) is added to the JWS table",
+  "registry.py", "    \"crit\": HeaderParameter(\"Critical\", is_list_str),\n}", "    \"crit\": HeaderParameter(\"Critical\", is_list_str),\n    \"nonce\": HeaderParameter(\"Nonce\", is_str),\n}")
+V("real-benign-error-message", "C05", "benign", "R05.3", "an error message is reworded",
+  "rfc7515/registry.py", "is not allowed", "is not permitted by the registry")
+V("real-benign-warning-added", "C06", "benign", "R06.5", "a deprecation warning is added to KeySet.get_by_kid for kid=None",
+  "_keys.py", "        if kid is None and len(self.keys) == 1:\n            return self.keys[0]", "        if kid is None and len(self.keys) == 1:\n            warnings.warn(\"tokens without kid are deprecated\", DeprecationWarning, stacklevel=2)\n            return self.keys[0]")
+V("real-benign-type-annotation", "C09", "benign", "R09.1", "a return annotation is refined and a cast added",
+  "jwt.py", "    payload = convert_claims(claims, encoder_cls)", "    payload: bytes = convert_claims(claims, encoder_cls)")
+V("real-benign-extra-validation", "C11", "benign", "R11.4", "RSA import additionally refuses an even modulus encoding early (a no-op for valid keys)",
+  "rfc7518/rsa_key.py", "        numbers = RSAPublicNumbers(base64_to_int(obj[\"e\"]), base64_to_int(obj[\"n\"]))\n        return numbers.public_key", "        if not obj.get(\"n\"):\n            raise ValueError(\"Missing modulus\")\n        numbers = RSAPublicNumbers(base64_to_int(obj[\"e\"]), base64_to_int(obj[\"n\"]))\n        return numbers.public_key")
+V2("real-benign-aad-helper", "C02", "benign", "R02.2", "the AAD construction of encrypt and decrypt is moved into one helper", [
+   ("rfc7516/message.py", "    if isinstance(obj, BaseJSONEncryption) and obj.aad:\n        aad = aad + b\".\" + urlsafe_b64encode(obj.aad)\n    obj.base64_segments[\"aad\"] = aad\n",
+    "    aad = _with_json_aad(obj, aad)\n    obj.base64_segments[\"aad\"] = aad\n"),
+   ("rfc7516/message.py", "    aad = obj.base64_segments[\"aad\"]\n    if isinstance(obj, BaseJSONEncryption) and obj.aad:\n        aad = aad + b\".\" + urlsafe_b64encode(obj.aad)\n",
+    "    aad = _with_json_aad(obj, obj.base64_segments[\"aad\"])\n"),
+   ("rfc7516/message.py", "def perform_decrypt(obj: EncryptionData, registry: JWERegistry) -> None:",
+    "def _with_json_aad(obj: EncryptionData, aad: bytes) -> bytes:\n    if isinstance(obj, BaseJSONEncryption) and obj.aad:\n        return aad + b\".\" + urlsafe_b64encode(obj.aad)\n    return aad\n\n\ndef perform_decrypt(obj: EncryptionData, registry: JWERegistry) -> None:")])
+V2("real-benign-registry-helper", "C05", "benign", "R05.10", "the four `registry is None -> construct_registry(algorithms)` blocks of jws.py call one helper", [
+   ("jws.py", "    if registry is None:\n        registry = construct_registry(algorithms)\n\n    registry.check_header(protected)", "    registry = _registry_for(registry, algorithms)\n\n    registry.check_header(protected)"),
+   ("jws.py", "    if registry is None:\n        registry = construct_registry(algorithms)\n\n    headers = obj.headers()", "    registry = _registry_for(registry, algorithms)\n\n    headers = obj.headers()"),
+   ("jws.py", "def register_key_set() -> None:", "def _registry_for(registry: JWSRegistry | None, algorithms: list[str] | None) -> JWSRegistry:\n    if registry is None:\n        return construct_registry(algorithms)\n    return registry\n\n\ndef register_key_set() -> None:")])
